@@ -29,6 +29,10 @@ pub enum Case15 {
         /// every generated parameter is multiplied by this (large logits); 0 means 1
         #[serde(default)]
         pscale: f64,
+        /// the input IS the first dense layer's weight array (a clone of the handle returned by `parameters()`:
+        /// shared storage, batch = output size)
+        #[serde(default)]
+        input_is_weights: bool,
     },
     /// the cost closures on arbitrary equal-shaped arrays
     Cost {
@@ -73,7 +77,7 @@ impl Case15 {
                 cmp_t(&format!("{:?}-cost", kind), &got, &want, false).map_err(|(k, d)| (k, format!("{} (output/target dims {:?})", d, dims)))?;
                 Ok(n > 1)
             }
-            Case15::Stack { specs, batch, rows, cols, pseed, xseed, int_data, cost, pscale } => {
+            Case15::Stack { specs, batch, rows, cols, pseed, xseed, int_data, cost, pscale, input_is_weights } => {
                 let e = |k: &str, d: String| Err((k.to_string(), d));
                 let acts = acts_for(specs);
                 let scale = if *pscale == 0.0 { 1.0 } else { *pscale };
@@ -107,10 +111,29 @@ impl Case15 {
                         }
                     }
                 }
+                // the input shares its storage with the first layer's weights
+                let mut aliased_input: Option<corgi::array::Array> = None;
+                let (xd, xv) = if *input_is_weights && matches!(specs.first(), Some(LayerSpec::Dense { .. })) {
+                    let w = layers[0].parameters().into_iter().next().map(|p| p.clone());
+                    match w {
+                        Some(w) => {
+                            let d = w.dimensions().to_vec();
+                            let v = f64s(w.values());
+                            aliased_input = Some(w.untracked());
+                            (d, v)
+                        }
+                        None => (xd, xv),
+                    }
+                } else {
+                    (xd, xv)
+                };
                 let exact = *int_data && scale == 1.0 && specs.iter().all(|s| matches!(s, LayerSpec::Dense { act: Act::None | Act::Relu, .. } | LayerSpec::Conv { act: Act::None | Act::Relu, .. } | LayerSpec::Flatten));
                 // layer by layer
                 let mut cur_ref = T::from_f64(&xd, &xv);
-                let mut cur = arr(&xd, &xv);
+                let mut cur = match &aliased_input {
+                    Some(w) => w.clone(),
+                    None => arr(&xd, &xv),
+                };
                 let kinks = ops::kink_count();
                 for (i, s) in specs.iter().enumerate() {
                     let pt: Vec<T> = params[i].iter().map(|(d, v)| T::from_f64(d, v)).collect();
@@ -154,7 +177,10 @@ impl Case15 {
                 if let Err(p) = guarded(|| drop(model.forward(arr(&xd, &other)))) {
                     return e("unexpected-panic:model-forward", format!("Model::forward panicked: {}", p));
                 }
-                let out = match guarded(|| model.forward(arr(&xd, &xv))) {
+                let out = match guarded(|| model.forward(match &aliased_input {
+                    Some(w) => w.clone(),
+                    None => arr(&xd, &xv),
+                })) {
                     Ok(o) => o,
                     Err(p) => return e("unexpected-panic:model-forward", format!("Model::forward panicked: {}", p)),
                 };
@@ -213,8 +239,8 @@ impl CaseKind for Case15 {
                 k.s(&format!("{:?}", kind)).us(dims).u(*wide as u64).us(tdims.as_ref().unwrap_or(&vec![]));
                 vec![format!("cost:{:?}", kind), format!("cost-rank:{}", dims.len())]
             }
-            Case15::Stack { specs, batch, rows, cols, cost, int_data, .. } => {
-                k.s(&format!("{:?}{:?}", specs, cost)).u(*batch as u64).u(*rows as u64).u(*cols as u64).b(*int_data);
+            Case15::Stack { specs, batch, rows, cols, cost, int_data, input_is_weights, .. } => {
+                k.s(&format!("{:?}{:?}", specs, cost)).u(*batch as u64).u(*rows as u64).u(*cols as u64).b(*int_data).b(*input_is_weights);
                 let mut c: Vec<String> = specs.iter().map(|s| format!("layer:{}", layer_name(s))).collect();
                 c.sort();
                 c.dedup();
@@ -262,12 +288,12 @@ pub fn run(ctx: &Ctx) -> i32 {
     }));
     // single dense layers: all sizes 1..4 x activations x input forms
     let acts = [Act::None, Act::Relu, Act::Sigmoid, Act::Softmax];
-    st.merge(ctx.run_indexed("dense-layers", 4 * 4 * 4 * 4 * 2, Some("Dense in/out sizes 1..4 x 4 activations x input [in] / [1,in] / [2,in] / [3,in] x integer / fractional parameters"), |i| {
+    st.merge(ctx.run_indexed("dense-layers", 4 * 4 * 4 * 4 * 2 * 2, Some("Dense in/out sizes 1..4 x 4 activations x input [in] / [1,in] / [2,in] / [3,in] x integer / fractional parameters"), |i| {
         let input = 1 + (i % 4) as usize;
         let output = 1 + ((i / 4) % 4) as usize;
         let act = acts[((i / 16) % 4) as usize];
         let batch = ((i / 64) % 4) as usize;
-        Some(Case15::Stack { specs: vec![LayerSpec::Dense { input, output, act }], batch, rows: 1, cols: 1, pseed: i, xseed: i + 1, int_data: (i / 256) % 2 == 0, cost: CostKind::Mse, pscale: 1.0 })
+        Some(Case15::Stack { specs: vec![LayerSpec::Dense { input, output, act }], batch, rows: 1, cols: 1, pseed: i, xseed: i + 1, int_data: (i / 256) % 2 == 0, cost: CostKind::Mse, pscale: 1.0, input_is_weights: (i / 512) % 2 == 1 })
     }));
     let (total, max_batch) = t.pick((120000u64, 3usize), (600000, 5));
     let strat = move || (any::<[u8; 8]>(), 0..=max_batch, any::<u64>(), any::<u64>(), any::<bool>(), any::<bool>(), 1..=8usize).boxed();
@@ -275,7 +301,7 @@ pub fn run(ctx: &Ctx) -> i32 {
         let cost = if *ce { CostKind::CrossEntropy } else { CostKind::Mse };
         let (specs, rows, cols) = make_stack(b, if *ce { Some(if b[7] & 1 == 0 { Act::Softmax } else { Act::Sigmoid }) } else { None });
         let _ = cdims;
-        Some(Case15::Stack { specs, batch: *batch, rows, cols, pseed: *pseed, xseed: *xseed, int_data: *int_data && !*ce, cost, pscale: 1.0 })
+        Some(Case15::Stack { specs, batch: *batch, rows, cols, pseed: *pseed, xseed: *xseed, int_data: *int_data && !*ce, cost, pscale: 1.0, input_is_weights: *xseed % 7 == 0 })
     }));
     // large logits: softmax / sigmoid layers whose pre-activations are far from zero and differ in sign across the batch
     let scales: Vec<f64> = if crate::exec::IS_F32 { vec![2.0, 4.0, 6.0] } else { vec![15.0, 25.0, 40.0, 60.0, 90.0] };
@@ -288,7 +314,7 @@ pub fn run(ctx: &Ctx) -> i32 {
         let output = 2 + ((i / nsc / 3) % 3) as usize;
         let act = if (i / nsc / 9) % 2 == 0 { Act::Softmax } else { Act::Sigmoid };
         let batch = 2 + ((i / nsc / 18) % 3) as usize;
-        Some(Case15::Stack { specs: vec![LayerSpec::Dense { input, output, act }], batch, rows: 1, cols: 1, pseed: i + 11, xseed: i + 12, int_data: true, cost: if ce { CostKind::CrossEntropy } else { CostKind::Mse }, pscale })
+        Some(Case15::Stack { specs: vec![LayerSpec::Dense { input, output, act }], batch, rows: 1, cols: 1, pseed: i + 11, xseed: i + 12, int_data: true, cost: if ce { CostKind::CrossEntropy } else { CostKind::Mse }, pscale, input_is_weights: false })
     }));
     let strat2 = move || (prop::collection::vec(1..=6usize, 1..=4), any::<bool>(), any::<u64>()).boxed();
     st.merge(ctx.run_prop("random-costs", total / 4, strat2, |(dims, ce, seed)| Some(Case15::Cost { kind: if *ce { CostKind::CrossEntropy } else { CostKind::Mse }, dims: dims.clone(), seed: *seed, wide: (*seed % 4) as u8, tdims: None })));
